@@ -5,7 +5,7 @@ import re
 def _places_in(fn):
     """yield (place, role, bb) for every place mentioned in the function's normal blocks"""
     def ops(o):
-        if o.get("k") in ("copy", "move"):
+        if o and o.get("k") in ("copy", "move"):
             yield o["pl"]
     for b in sorted(fn.normal_blocks()):
         blk = fn.blocks[b]
@@ -14,8 +14,11 @@ def _places_in(fn):
                 yield s["pl"], "write", b
                 rv = s["rv"]
                 k = rv["k"]
-                if k in ("use", "cast", "unop", "repeat"):
-                    for p in ops(rv.get("op") or rv.get("a")):
+                if k in ("use", "cast", "repeat"):
+                    for p in ops(rv.get("op")):
+                        yield p, "read", b
+                elif k == "unop":
+                    for p in ops(rv.get("a")):
                         yield p, "read", b
                 elif k in ("ref", "rawptr", "discr"):
                     yield rv["pl"], "read", b
